@@ -114,7 +114,7 @@ pub fn check_model(
         );
         for i in 0..len {
             ensure!(
-                got.parameters[i].0 == want[i] as f64 && got.parameters[i].1 == want[i + len] as f64,
+                got.parameters[i].0.to_bits() == (want[i] as f64).to_bits() && got.parameters[i].1.to_bits() == (want[i + len] as f64).to_bits(),
                 "pdf-values",
                 "{} state {} label {} pdf {} dim {}: loaded ({:e},{:e}) != file ({:e},{:e})",
                 what, state, text, pdf_idx, i, got.parameters[i].0, got.parameters[i].1, want[i], want[i + len]
@@ -122,7 +122,7 @@ pub fn check_model(
         }
         if is_msd {
             ensure!(
-                got.msd == Some(want[2 * len] as f64),
+                got.msd.map(|m| m.to_bits()) == Some((want[2 * len] as f64).to_bits()),
                 "pdf-values",
                 "{} state {} label {} pdf {}: voicing weight {:?} != file {:e}",
                 what, state, text, pdf_idx, got.msd, want[2 * len]
@@ -251,6 +251,58 @@ fn bundled_voice() -> Result<&'static Voice, String> {
     })
     .as_ref()
     .map_err(|e| e.clone())
+}
+
+/// The Gaussians "handed to synthesis" for a single voice (public `Models` with the default
+/// weight 1.0) must be bit-equal to the file's float32 entries as well.
+pub fn check_models_single(voice: &std::sync::Arc<Voice>, file: &FileVoice, labels: &[Label], texts: &[String]) -> Result<(), Failure> {
+    use jbonsai::model::{InterporationWeight, Models, VoiceSet};
+    let vs = match VoiceSet::new(vec![voice.clone()]) {
+        Ok(v) => v,
+        Err(e) => fail!("voiceset", "{}", e),
+    };
+    let iw = InterporationWeight::new(1, file.streams.len());
+    let models = Models::new(labels, &vs, &iw);
+    let ns = file.num_states;
+    let bits = |a: f64, b: f32| a.to_bits() == (b as f64).to_bits();
+    let dur = models.duration();
+    ensure!(dur.len() == labels.len() * ns, "models-shape", "duration length {}", dur.len());
+    for (li, text) in texts.iter().enumerate() {
+        let (ti, pi, _) = file.duration.select(2, text).map_err(|e| Failure::new("oracle-walk", e))?;
+        let want = file.duration.pdf_at(ti, pi).map_err(|e| Failure::new("oracle-walk", e))?;
+        for s in 0..ns {
+            let g = dur[li * ns + s];
+            ensure!(bits(g.0, want[s]) && bits(g.1, want[s + ns]), "models-values", "Models::duration label {} state {}: ({:e},{:e}) is not bit-equal to the file's ({:e},{:e})", li, s, g.0, g.1, want[s], want[s + ns]);
+        }
+    }
+    for (si, fs) in file.streams.iter().enumerate() {
+        let ms = models.model_stream(si);
+        ensure!(ms.stream.len() == labels.len() * ns, "models-shape", "stream {} length {}", si, ms.stream.len());
+        for (li, text) in texts.iter().enumerate() {
+            for s in 0..ns {
+                let (ti, pi, _) = fs.model.select(s + 2, text).map_err(|e| Failure::new("oracle-walk", e))?;
+                let want = fs.model.pdf_at(ti, pi).map_err(|e| Failure::new("oracle-walk", e))?;
+                let len = (want.len() - fs.is_msd as usize) / 2;
+                let (gp, gmsd) = &ms.stream[li * ns + s];
+                ensure!(gp.len() == len, "models-shape", "stream {} vector size {}", si, gp.len());
+                for k in 0..len {
+                    ensure!(bits(gp[k].0, want[k]) && bits(gp[k].1, want[k + len]), "models-values", "Models::model_stream({}) label {} state {} dim {}: ({:e},{:e}) is not bit-equal to the file's ({:e},{:e})", si, li, s, k, gp[k].0, gp[k].1, want[k], want[k + len]);
+                }
+                if fs.is_msd {
+                    ensure!(bits(*gmsd, want[2 * len]), "models-values", "Models::model_stream({}) label {} state {}: voicing weight {:e} is not bit-equal to the file's {:e}", si, li, s, gmsd, want[2 * len]);
+                }
+            }
+        }
+        if let (Some((gp, _)), Some(fg)) = (&ms.gv, &fs.gv) {
+            let (ti, pi, _) = fg.select(2, &texts[0]).map_err(|e| Failure::new("oracle-walk", e))?;
+            let want = fg.pdf_at(ti, pi).map_err(|e| Failure::new("oracle-walk", e))?;
+            let len = want.len() / 2;
+            for k in 0..len.min(gp.len()) {
+                ensure!(bits(gp[k].0, want[k]) && bits(gp[k].1, want[k + len]), "models-values", "GV of stream {} dim {}: ({:e},{:e}) is not bit-equal to the file's ({:e},{:e})", si, k, gp[k].0, gp[k].1, want[k], want[k + len]);
+            }
+        }
+    }
+    Ok(())
 }
 
 pub fn check_voice_labels(voice: &Voice, file: &FileVoice, lines: &[String], rep: &mut Report) -> Result<usize, Failure> {
@@ -415,6 +467,10 @@ impl Prop for GeneratedVoice {
         check_static(&voice, &file)?;
         let mut rep = Report::new();
         let passed = check_voice_labels(&voice, &file, &c.labels, &mut rep)?;
+        {
+            let labels = parse_lines(&c.labels).map_err(|e| Failure::new("label-parse", e))?;
+            check_models_single(&std::sync::Arc::new(voice.clone()), &file, &labels, &c.labels)?;
+        }
         let engine = match Engine::load(&[&tmp.0]) {
             Ok(e) => e,
             Err(e) => fail!("load-valid-voice", "Engine::load rejects a well-formed generated voice: {}", e),
